@@ -123,6 +123,36 @@ Qed.
 Lemma p_S_stops (r : str) : stops (eval ws) r -> W.p_S r = None.
 Proof. intros Hr. unfold W.p_S. pose proof (Wspan_app W.isS [] r eq_refl Hr) as E. cbn [app] in E. rewrite E. reflexivity. Qed.
 
+Lemma Wspan_length f (s : str) : (length (snd (W.span f s)) <= length s)%nat.
+Proof.
+  induction s as [|c s IH]; cbn [W.span]; [cbn; lia|]. destruct (f c); [|cbn [snd]; lia].
+  destruct (W.span f s) as [a b]. cbn [snd length] in *. lia.
+Qed.
+
+Lemma skipS_length (s : str) : (length (W.skipS s) <= length s)%nat.
+Proof. apply Wspan_length. Qed.
+
+Lemma p_S_length (s r : str) : W.p_S s = Some r -> (length r <= length s)%nat.
+Proof.
+  unfold W.p_S. pose proof (Wspan_length W.isS s) as H. destruct (W.span W.isS s) as [[|c a] b]; [discriminate|].
+  intros E. injection E as <-. exact H.
+Qed.
+
+Lemma Wspan_length_eq f (s : str) : length s = (length (fst (W.span f s)) + length (snd (W.span f s)))%nat.
+Proof.
+  induction s as [|c s IH]; cbn [W.span]; [reflexivity|]. destruct (f c); [|reflexivity].
+  destruct (W.span f s) as [a b]. cbn [fst snd length] in *. lia.
+Qed.
+
+Lemma p_S_lt (s r : str) : W.p_S s = Some r -> (length r < length s)%nat.
+Proof.
+  unfold W.p_S. pose proof (Wspan_length_eq W.isS s) as H. destruct (W.span W.isS s) as [[|c a] b]; [discriminate|].
+  intros E. injection E as <-. cbn [fst snd length] in H. lia.
+Qed.
+
+Lemma sm_length e (s : str) ts (r : str) : SM e s ts r -> (length r <= length s)%nat.
+Proof. induction 1 as [e s|e s t r1 ts r Hs Hlt Hm IH]; lia. Qed.
+
 Lemma inv_ws0 s t r : S (Chars0 ws) s t r -> exists a : str, s = a ++ r /\ forallb (eval ws) a = true /\ stops (eval ws) r.
 Proof. intros H. inv H. eauto. Qed.
 
